@@ -4,7 +4,9 @@ CONSTANTS
   HA = 2
   PA = 4
   HB = 3
-  PB = 2
+  PB = 1
+  BCmds = {"read", "set", "trigger"}
+  BObjs = {"x", "y"}
   LimPlan = 3
   LimR = 1
   SetR = 2
